@@ -182,10 +182,56 @@ def check_bitwise(ctx, case):
         ctx.fail('bitwise/mask', case, {'got': str(np.asarray(r['mask'].val).item())})
 
 
+def extprec_routes(F, s, w, f):
+    """Objects of word length w obtained by every construction / derivation route (name, object)."""
+    import fxpmath
+    lo, hi = M.rng(s, w)
+    base = F(hi, s, w, f, raw=True)
+    arr = F([hi, 0, lo], s, w, f, raw=True)
+    yield 'ctor-raw', base
+    yield 'ctor-array', arr
+    yield 'dtype', F(None, dtype=M.dtype_str(s, w, f))
+    yield 'like_kw', F(1, like=base)
+    yield 'like_kw-array', F([1, 0], like=arr)
+    yield 'index', arr[0]
+    yield 'slice', arr[0:2]
+    yield 'deepcopy', base.deepcopy()
+    yield 'like-method', F(1, s, 8, 0).like(base)
+    yield 'from-fxp', F(base, s, w, f)
+    yield 'auto-n_frac', F(1, s, w, n_word_max=max(w, 64))
+    yield 'n_int+n_frac', F(1, s, n_int=w - f - int(s), n_frac=f) if w - f - int(s) >= 0 else base
+    yield 'invert', ~base
+    yield 'and-mask', base & 1
+    if w >= 2:
+        half = F(1, s, w - 1, 0, raw=True)
+        yield 'add->w', half + half          # (w-1)-bit operands give a w-bit sum
+        yield 'fxpmath.add', fxpmath.add(half, half)
+        yield 'neg', -base
+        t = F(None, s, 8, 0)
+        t.resize(s, w, f)
+        yield 'resize-up', t
+        u = F(1, s, max(w, 70) + 3, 0, raw=True)
+        u.resize(s, w, f)
+        yield 'resize-down', u
+    if w % 2 == 0 and w >= 4:
+        q = F(1, s, w // 2, 0, raw=True)
+        yield 'mul->w', q * q
+
+
 def check_extprec(ctx, case):
     F = C.Fxp()
     w = int(case['w'])
     ctx.ev()
+    for s in (True, False):
+        for f in (0, w // 2):
+            ok, objs = ctx.guard(case, lambda: list(extprec_routes(F, s, w, f)), sig_prefix='extprec/routes/')
+            if not ok:
+                return
+            for name, z in objs:
+                ctx.ev()
+                if z.status.get('extended_prec') is not (z.n_word >= 64):
+                    ctx.fail('extprec/route/' + name, case, {'w': w, 'signed': s, 'n_frac': f, 'n_word': z.n_word, 'status': dict(z.status)})
+                    return
     for s in (True, False):
         for f in (0, w // 2):
             ok, x = ctx.guard(case, lambda: F(None, s, w, f), sig_prefix='extprec/')
